@@ -130,7 +130,9 @@ class LibLoops:
                 x = z3.Const(fresh_name("x"), e.sort(et2))
                 if isinstance(seqval.origin, tuple) and seqval.origin[0] == "enum":
                     _, idxf, setz0 = seqval.origin
-                    s.locals[donen] = Val(("set", et2), z3.Lambda([x], z3.And(z3.Select(setz0, x), idxf(x) < kk)))
+                    D = z3.Const(fresh_name("done"), z3.ArraySort(e.sort(et2), z3.BoolSort()))
+                    s.assume(z3.ForAll([x], z3.Select(D, x) == z3.And(z3.Select(setz0, x), idxf(x) < kk), patterns=[z3.Select(D, x)]))
+                    s.locals[donen] = Val(("set", et2), D)
                 else:
                     j = z3.Int(fresh_name("j"))
                     s.locals[donen] = Val(("set", et2), z3.Lambda([x], z3.Exists([j], z3.And(0 <= j, j < kk, z3.Select(e.list_at(seqval), j) == x))))
@@ -306,9 +308,11 @@ class LibLoops:
     # ================================================================== comprehensions
     def comprehension(self, node, st, kind):
         e = self.e
-        if len(node.generators) != 1 or node.generators[0].ifs:
-            raise Unsupported("comprehension with several generators or a filter", node, e.path)
+        if len(node.generators) != 1:
+            raise Unsupported("comprehension with several generators", node, e.path)
         g = node.generators[0]
+        if g.ifs:
+            return self.filtered_comprehension(node, st, kind)
         out = []
         for s, itv in e.ev(g.iter, st):
             if isinstance(itv, Exc):
@@ -324,9 +328,44 @@ class LibLoops:
                 at = z3.Lambda([i], v.z)
                 R = e.mk_list(("list", v.t), e.list_len(L), at)
                 if kind == "set":
-                    out.append((s2, self.set_of_list(R)))
+                    out.append((s2, self.set_of_list(R, s2)))
                 else:
                     out.append((s2, R))
+        return out
+
+    def filtered_comprehension(self, node, st, kind):
+        """[x for x in L if cond(x)] with the identity as element expression: a list holding exactly the
+        elements of L that satisfy cond (order and multiplicities are abstracted: membership only)"""
+        e = self.e
+        g = node.generators[0]
+        if not (isinstance(node.elt, ast.Name) and isinstance(g.target, ast.Name) and node.elt.id == g.target.id):
+            raise Unsupported("filtered comprehension with a non-identity element expression", node, e.path)
+        self.use("[x for x in L if c(x)]: a list whose elements are exactly the elements of L satisfying c (membership semantics; order/multiplicity abstracted)")
+        out = []
+        for s, itv in e.ev(g.iter, st):
+            if isinstance(itv, Exc):
+                out.append((s, itv))
+                continue
+            for s2, L in (self.to_list(itv, s, node) if itv.t[0] != "list" else [(s, itv)]):
+                et = L.t[1]
+                R = e.fresh(("list", et), "filtered")
+                def cond_at(term, base_state):
+                    s3 = base_state.fork()
+                    s3.locals[g.target.id] = Val(et, term)
+                    cs = [e.truth(e.sv(c, s3)) for c in g.ifs]
+                    return z3.And(*cs) if len(cs) > 1 else cs[0]
+                i, j = z3.Int(fresh_name("i")), z3.Int(fresh_name("j"))
+                nL, aL, nR, aR = e.list_len(L), e.list_at(L), e.list_len(R), e.list_at(R)
+                s2.assume(z3.And(nR >= 0, nR <= nL))
+                k1 = z3.Int(fresh_name("k"))
+                s2.assume(z3.ForAll([j], z3.Implies(z3.And(0 <= j, j < nR),
+                                                    z3.And(cond_at(z3.Select(aR, j), s2), z3.Exists([k1], z3.And(0 <= k1, k1 < nL, z3.Select(aL, k1) == z3.Select(aR, j))))),
+                                    patterns=[z3.Select(aR, j)]))
+                k2 = z3.Int(fresh_name("k"))
+                s2.assume(z3.ForAll([i], z3.Implies(z3.And(0 <= i, i < nL, cond_at(z3.Select(aL, i), s2)),
+                                                    z3.Exists([k2], z3.And(0 <= k2, k2 < nR, z3.Select(aR, k2) == z3.Select(aL, i)))),
+                                    patterns=[z3.Select(aL, i)]))
+                out.append((s2, R if kind != "set" else self.set_of_list(R, s2)))
         return out
 
     def call_builtin_lazy(self, name, call, st):
